@@ -740,6 +740,63 @@ impl WorldC {
                 _ => {}
             }
         }
+        // C05: the stored proposal is exactly what the (single) committed Propose of this transaction asked for
+        if let Some((evs, r, _)) = ctx {
+            if r.ok {
+                let proposes: Vec<&Frame> = evs
+                    .iter()
+                    .filter_map(|e| match e {
+                        Event::Frame(f) if f.addr == m.addr && f.entry == Entry::Execute && f.outcome.is_ok() => Some(f),
+                        _ => None,
+                    })
+                    .filter(|f| cosmwasm_std::from_json::<Value>(&f.msg).map(|v| v.get("propose").is_some()).unwrap_or(false))
+                    .collect();
+                if proposes.len() == 1 {
+                    let f = proposes[0];
+                    if let Ok(v) = cosmwasm_std::from_json::<Value>(&f.msg) {
+                        let req = &v["propose"];
+                        let req_msgs: Vec<CosmosMsg> = serde_json::from_value(req["msgs"].clone()).unwrap_or_default();
+                        let same = req["title"].as_str() == Some(p.title.as_str())
+                            && req["description"].as_str() == Some(p.description.as_str())
+                            && req_msgs == p.msgs
+                            && f.sender == p.proposer.as_str();
+                        if !same {
+                            self.viol(
+                                out,
+                                "C05",
+                                "proposal-content-ne-request",
+                                json!({}),
+                                format!("proposal {} was stored with {} messages / title {:?}; the Propose call submitted {} messages / title {:?}", p.id, p.msgs.len(), p.title, req_msgs.len(), req["title"]),
+                            );
+                        }
+                        // requested deadline honoured: min(latest, now + max_voting_period); Never means the maximum
+                        if let (Some(mvp), Ok(latest)) = (m.max_voting_period, serde_json::from_value::<Option<Expiration>>(req["latest"].clone())) {
+                            let max = match mvp {
+                                Duration::Height(h) => Expiration::AtHeight(f.block.height + h),
+                                Duration::Time(t) => Expiration::AtTime(f.block.time.plus_seconds(t)),
+                            };
+                            let want = match (latest, max) {
+                                (None, mx) | (Some(Expiration::Never {}), mx) => Some(mx),
+                                (Some(Expiration::AtHeight(a)), Expiration::AtHeight(b)) => Some(Expiration::AtHeight(a.min(b))),
+                                (Some(Expiration::AtTime(a)), Expiration::AtTime(b)) => Some(Expiration::AtTime(if a < b { a } else { b })),
+                                _ => None,
+                            };
+                            if let Some(w) = want {
+                                if w != p.expires {
+                                    self.viol(
+                                        out,
+                                        "C05",
+                                        "expiry-ne-request",
+                                        json!({}),
+                                        format!("proposal {} expires {:?}; requested latest {:?} with maximum {:?} gives {:?}", p.id, p.expires, req["latest"], max, w),
+                                    );
+                                }
+                            }
+                        }
+                    }
+                }
+            }
+        }
         let t = PropTrack {
             id: p.id,
             created_height: block.height,
